@@ -73,6 +73,9 @@ def gen_bitpack(rng, n):
             val = rng.choice([0x80000000, 0xffffffff, 0xbf800000, rng.below(1 << 32) | 0x80000000])
             if kind == "F32" and rng.chance(1, 2):
                 val = rng.below(1 << 32)
+            if kind == "F31" and rng.chance(1, 5):
+                val = 0                 # +0.0: a log probability of exactly 0 is valid ARPA (and what `build_binary -i` substitutes);
+                                        # it is non-positive, is stored as 31 zero bits and reads back as -0.0
         else:
             ln = rng.range(0, maxlen)
             val = None
@@ -109,7 +112,7 @@ def oracle_bitpack(case, out):
         ln = 32 if kind == "F32" else 31
         val = int(f[3], 16)
         stored = val & ((1 << ln) - 1)
-        if kind == "F31" and not (val & 0x80000000):
+        if kind == "F31" and not (val & 0x80000000) and val != 0:
             return None     # positive float: outside the domain of WriteNonPositiveFloat31
     if (mem >> off) & ((1 << ln) - 1):
         return None         # precondition (zero target) not met: the spec says nothing
@@ -120,7 +123,8 @@ def oracle_bitpack(case, out):
     n = len(f[1]) // 2
     if o[0] != exp_mem.to_bytes(n + 16, "little")[:n].hex() or exp_mem >> (8 * n):
         return "memory after write differs from 'only the target bits change'"
-    if int(o[1], 16) != val:
+    want = 0x80000000 if (kind == "F31" and val == 0) else val       # +0.0 comes back as -0.0 (the sign is not stored)
+    if int(o[1], 16) != want:
         return "read back %s, wrote %s" % (o[1], hx(val))
     return None
 
@@ -131,8 +135,15 @@ def gen_scalar(rng, n):
     for k in range(64):
         specials += [(1 << k) - 1, 1 << k, (1 << k) + 1]
     for _ in range(n):
-        kind = rng.choice(["RB", "RB", "SS", "US", "P32", "RND"])
-        if kind == "RB":
+        kind = rng.choice(["RB", "RB", "SS", "US", "P32", "RND", "SZ"])
+        if kind == "SZ":
+            # ProbingHashTable::Size(entries, multiplier): a table of that size must accept `entries` insertions (small tables, where the
+            # truncated product is no larger than the entry count, included)
+            import struct
+            mult = rng.choice([1.0, 1.01, 1.1, 1.2, 1.5, 2.0, 3.0, 7.5, 1.0 + rng.below(1000) / 997.0])
+            bits = struct.unpack("<I", struct.pack("<f", mult))[0]
+            cases.append("SZ %s %s %s" % (rng.choice("PD"), hx(rng.choice([0, 1, 2, 3, 4, 5, 9, 10, rng.range(0, 40), rng.range(0, 3000)])), hx(bits)))
+        elif kind == "RB":
             cases.append("RB " + hx(rng.choice(specials + [rng.below(1 << rng.range(1, 64))]) & ((1 << 64) - 1)))
         elif kind in ("SS", "US"):
             cases.append("%s %s" % (kind, hx(rng.below(1 << 32))))
@@ -155,6 +166,14 @@ def oracle_scalar(case, out):
         off, rg, w = (int(x, 16) for x in f[1:])
         r = int(out, 16)
         return None if r < w else "pivot %d not below width %d" % (r, w)
+    if f[0] == "SZ":
+        n = int(f[2], 16)
+        o = out.split()
+        if len(o) != 2:
+            return "unexpected output %r" % out
+        if int(o[0], 16) <= n:
+            return "Size(%d entries) gives %d buckets: no spare bucket, the table cannot hold the entries it was sized for" % (n, int(o[0], 16))
+        return None if o[1] == "ok" else "a table of Size(%d entries, multiplier) does not accept / return its %d entries: %s" % (n, n, o[1])
     if f[0] == "RND" and f[1] == "P":
         x, r = int(f[2], 16), int(out, 16)
         return None if (r >= x and r & (r - 1) == 0 and r < 2 * x) else "RoundBuckets(%d)=%d is not the next power of two" % (x, r)
@@ -468,7 +487,7 @@ def oracle_array(case, out):
 
 ORACLES = {"W57": oracle_bitpack, "W25": oracle_bitpack, "F32": oracle_bitpack, "F31": oracle_bitpack, "R57": oracle_bitpack,
            "R25": oracle_bitpack, "RB": oracle_scalar, "SS": oracle_scalar, "US": oracle_scalar, "P32": oracle_scalar,
-           "RND": oracle_scalar, "PT": oracle_table, "AP": oracle_table, "SU": oracle_search, "BS": oracle_search,
+           "RND": oracle_scalar, "SZ": oracle_scalar, "PT": oracle_table, "AP": oracle_table, "SU": oracle_search, "BS": oracle_search,
            "S64": oracle_search, "TA": oracle_array, "TM": oracle_middle}
 
 
@@ -489,7 +508,7 @@ def run(ctx):
     cases += gen_bitpack(rng, ctx.pick(1500, 40000)) + gen_scalar(rng, ctx.pick(600, 10000)) + \
         gen_table(rng, ctx.pick(700, 12000), big) + gen_table_wrap(rng, ctx.pick(40, 600)) + gen_search(rng, ctx.pick(900, 20000), big) + gen_array(rng, ctx.pick(250, 4000), big) + gen_middle(rng, ctx.pick(250, 3000), big)
     impl = vlib.compile_driver("c20_driver", os.path.join(vlib.ROOT, "harness", "drivers", "c20_driver.cc"), libs=("kenlm", "kenlm_util"))
-    iout = vlib.run_lines(impl, cases)
+    iout = vlib.run_lines(impl, cases, restarts=12)
     # step 5: specification oracle on the implementation
     spec_fail = []
     nontrivial = set()
@@ -521,7 +540,7 @@ def run(ctx):
     model_broken = None
     try:
         model = vlib.ocaml_model("C20")
-        mout = vlib.run_lines(model, cases)
+        mout = vlib.run_lines(model, cases, restarts=12)
         for c, a, b in zip(cases, iout, mout):
             if a != b:
                 mismatches.append((c, a, b))
